@@ -738,7 +738,7 @@ def run_thorough(chk):
 META = {
     "category": "other",
     "engine": "OPS",
-    "technique": "ast lints specific to model/op.py: transitive field-read sets of __eq__/__hash__, ndarray truth-value typing, taint from Op.symbol to Op(...) constructors, symbolic (sympy) comparison of factor expressions",
+    "technique": "abstract interpretation of the Op / OpSum dunder methods, simplify and check_operator_terms on ordered words with symbolic factors (helper methods from the source class); ast lints specific to model/op.py (eq/hash field sets, ndarray truth-value typing, taint from Op.symbol to Op(...) constructors)",
     "text": "Decides five structural necessary conditions of the symbolic-operator homomorphism on the current source (eq/hash key "
             "agreement, no ambiguous ndarray truth tests on quantum numbers, quantum numbers carried by every rebuilt Op, aggregation "
             "order in Op.product, factor expressions of neg/mul/div/product/merge are the homomorphic image). It does not decide the "
@@ -746,5 +746,5 @@ META = {
             ' The dunder methods of Op / OpSum are run abstractly on symbolic operators: every term of a sum, difference, product, negation, in-place sum or scalar division is present once with operands in written order and the written sign.',
     "note": "Types come from the annotation List[np.ndarray] on qn_list and from loop/zip binding; an Op(...) site is in scope when its "
             "symbol argument is data-dependent on .symbol/.split_symbol. Forms outside the interpreted fragment give exit 2.",
-    "design_ref": "DESIGN.md 3.9, 4 (C15)",
+    "design_ref": "DESIGN.md 3.9, 4 (C15); as built: 9.1, 9.3, 9.8",
 }
